@@ -33,6 +33,7 @@ def harness(prop, function, twins=(), bounded=None, tier='quick', clause=None):
 
 def _run_one(h, twin, timeout_s):
     run = core.Run(h.function, timeout_s=timeout_s)
+    run.stop_on_failure = twin is not None
     core.RUN = run
     core.reset_fresh()
     status = 'ok'
@@ -43,6 +44,8 @@ def _run_one(h, twin, timeout_s):
             h.fn(run)
         else:
             h.fn(run, twin=twin)
+    except core.TwinDone:
+        pass
     except EngineEscape as e:
         status, err = 'escape', str(e)
     except PathCap as e:
